@@ -501,6 +501,7 @@ async function main() {
     console.log("REPLAY-OK no violation"); process.exit(0);
   }
   const seed = Number(kv.seed ?? 20261002), from = Number(kv.from ?? 0), to = Number(kv.to ?? 10), bridge = Number(kv.bridge ?? spec.idx);
+  // (bridge -1 is the fixed catalogue; its traces are derived like any other bridge's)
   const traces = new Set(), nontrivial = new Set(), transitions = new Set(); let digest = 0n, runs = 0; const samples = [];
   let code = 0, oracle = "";
   for (let run = from; run < to; run++) {
